@@ -36,6 +36,8 @@ func runOracle(oracle string, c *Case, lean *LeanDriver) Verdict {
 		return seqCase(c, lean)
 	case "concurrent":
 		return concurrentCase(c, lean)
+	case "distplan":
+		return distPlanCase(c, lean)
 	case "kernel":
 		if c.Query == "kernel:coalesce" {
 			return coalesceKernel(c, lean)
